@@ -3,6 +3,6 @@
 cd /verif
 ls seeded | grep -v RESULTS | while read id; do
   extra=""; case "$id" in r4-C04-2) extra="C10";; esac
-  echo "$id quick $extra"
+  echo "$id quick${extra:+ $extra}"
 done | xargs -P ${SEEDPAR:-3} -L 1 ./tools/seedpar.sh > /var/tmp/vscratch/seedall.out 2>&1
 sort /var/tmp/vscratch/seedall.out > seeded/RESULTS.txt
